@@ -99,8 +99,10 @@ MODULES = {
          "LiveRangeInfo.is_neighbour": {"records": ["self", "lr"]},
          "LiveRangeInfo.__lt__": {"records": ["self", "other"]}}),
     "live_range": ("ethosu/vela/live_range.py", "SrcLiveRange", [
-        "LiveRange.overlaps_ranges"],
-        {"LiveRange.overlaps_ranges": {"records": ["self", "other"]}}),
+        "LiveRange.overlaps_ranges", "LiveRange.mark_usage"],
+        {"LiveRange.overlaps_ranges": {"records": ["self", "other"]},
+         # `mark_usage` assigns `self.start_time` / `self.end_time`: the translated function returns their final values
+         "LiveRange.mark_usage": {"records": ["self"], "attr_stores": ["self.start_time", "self.end_time"]}}),
     # third round: the boolean part of integer constraint predicates.  Wrapper assumptions (exactly): the decorator
     # `docstring_format_args(..)` only formats `__doc__`; the second component of the returned pair (an f-string) has no
     # effect; `op.get_kernel_stride()` returns a pair of integers and `cls.<x>_range` is a pair of integers (both become
